@@ -122,8 +122,8 @@ fn sat_basic(b: &BasicRequirement, v: &Visible, lenient: bool) -> bool {
         // require_amount(n, resource): *a* proof of the resource whose amount is at least n
         // (largest single proof, not the sum over proofs)
         BasicRequirement::AmountOf(n, r) => {
-            v.proofs.iter().any(|p| p.res() == r && p.amount() >= *n)
-                || (lenient && (v.simulated.contains(r) || Decimal::from(v.virt.iter().filter(|g| g.resource_address() == *r).count() as u64) >= *n && v.virt.iter().any(|g| g.resource_address() == *r)))
+            let virtual_count = v.virt.iter().filter(|g| g.resource_address() == *r).count() as u64;
+            v.proofs.iter().any(|p| p.res() == r && p.amount() >= *n) || (lenient && (v.simulated.contains(r) || (virtual_count > 0 && Decimal::from(virtual_count) >= *n)))
         }
         // require_n_of(k, list): at least k entries of the list are satisfied
         BasicRequirement::CountOf(k, list) => list.iter().filter(|a| sat_atom(a, v, lenient)).count() >= *k as usize,
@@ -342,16 +342,45 @@ pub fn gen_basic(rng: &mut Rng, u: &Universe) -> BasicRequirement {
     }
 }
 
-/// returns the node and the number of composite nodes it used (<= budget, budget >= 1)
-fn gen_comp(rng: &mut Rng, u: &Universe, nest_left: usize, budget: usize, force_deep: bool, pool: &[BasicRequirement]) -> (CompositeRequirement, usize) {
-    let leaf = |rng: &mut Rng| -> CompositeRequirement {
-        if !pool.is_empty() && rng.chance(2, 3) {
-            CompositeRequirement::BasicRequirement(rng.pick(pool).clone())
+/// SBOR levels a basic requirement needs below its composite node
+fn basic_levels(b: &BasicRequirement) -> usize {
+    let list = |l: &Vec<ResourceOrNonFungible>| {
+        if l.is_empty() {
+            2
+        } else if l.iter().any(|a| matches!(a, ResourceOrNonFungible::NonFungible(_))) {
+            5
         } else {
-            CompositeRequirement::BasicRequirement(gen_basic(rng, u))
+            4
         }
     };
-    if nest_left == 0 || budget <= 1 || (!force_deep && rng.chance(2, 5)) {
+    match b {
+        BasicRequirement::AmountOf(..) => 2,
+        BasicRequirement::Require(ResourceOrNonFungible::Resource(_)) => 3,
+        BasicRequirement::Require(ResourceOrNonFungible::NonFungible(_)) => 4,
+        BasicRequirement::CountOf(_, l) | BasicRequirement::AllOf(l) | BasicRequirement::AnyOf(l) => list(l),
+    }
+}
+
+/// levels available to a basic requirement at composite nesting level `level` when the rule
+/// itself starts `wrap` levels deep in the manifest (calibrated with `C08-depth-probe`)
+fn levels_available(level: usize, wrap: usize) -> usize {
+    (MANIFEST_SBOR_V1_MAX_DEPTH - 2).saturating_sub(wrap + 2 * level)
+}
+
+/// returns the node and the number of composite nodes it used (<= budget, budget >= 1)
+fn gen_comp(rng: &mut Rng, u: &Universe, level: usize, max_nest: usize, wrap: usize, budget: usize, force_deep: bool, pool: &[BasicRequirement]) -> (CompositeRequirement, usize) {
+    let leaf = |rng: &mut Rng| -> CompositeRequirement {
+        let avail = levels_available(level, wrap);
+        for _ in 0..10 {
+            let b = if !pool.is_empty() && rng.chance(2, 3) { rng.pick(pool).clone() } else { gen_basic(rng, u) };
+            if basic_levels(&b) <= avail {
+                return CompositeRequirement::BasicRequirement(b);
+            }
+        }
+        let fb = rng.pick(&u.f);
+        CompositeRequirement::BasicRequirement(BasicRequirement::AmountOf(rule_amount(rng, fb), fb.addr))
+    };
+    if level >= max_nest || budget <= 1 || (!force_deep && rng.chance(2, 5)) {
         return (leaf(rng), 1);
     }
     let maxk = (budget - 1).min(if rng.chance(1, 6) { 8 } else { 4 });
@@ -369,7 +398,7 @@ fn gen_comp(rng: &mut Rng, u: &Universe, nest_left: usize, budget: usize, force_
             let cap = if rng.chance(1, 4) { avail } else { 6 };
             1 + rng.usize_below(avail.min(cap))
         };
-        let (c, n) = gen_comp(rng, u, nest_left - 1, b, force_deep && i == 0, pool);
+        let (c, n) = gen_comp(rng, u, level + 1, max_nest, wrap, b, force_deep && i == 0, pool);
         used += n;
         children.push(c);
     }
@@ -383,8 +412,13 @@ fn gen_comp(rng: &mut Rng, u: &Universe, nest_left: usize, budget: usize, force_
 /// A random rule whose nesting depth is at most `max_nest` (<= 8) and that fits a manifest
 /// argument `wrap` levels deep.
 pub fn gen_rule(rng: &mut Rng, u: &Universe, max_nest: usize, wrap: usize) -> AccessRule {
-    for _ in 0..12 {
-        let r = gen_rule_once(rng, u, max_nest.min(MAX_NEST));
+    // deepest level at which even the shallowest leaf (amount-of, 2 levels) still fits
+    let mut cap = 0;
+    while cap < MAX_NEST && levels_available(cap + 1, wrap) >= 2 {
+        cap += 1;
+    }
+    for _ in 0..4 {
+        let r = gen_rule_once(rng, u, max_nest.min(cap), wrap);
         if fits(&r, wrap) {
             return r;
         }
@@ -392,7 +426,7 @@ pub fn gen_rule(rng: &mut Rng, u: &Universe, max_nest: usize, wrap: usize) -> Ac
     AccessRule::Protected(CompositeRequirement::BasicRequirement(gen_basic(rng, u)))
 }
 
-fn gen_rule_once(rng: &mut Rng, u: &Universe, max_nest: usize) -> AccessRule {
+fn gen_rule_once(rng: &mut Rng, u: &Universe, max_nest: usize, wrap: usize) -> AccessRule {
     match rng.below(40) {
         0 => return AccessRule::AllowAll,
         1 => return AccessRule::DenyAll,
@@ -409,7 +443,7 @@ fn gen_rule_once(rng: &mut Rng, u: &Universe, max_nest: usize) -> AccessRule {
         _ => (max_nest, MAX_NODES, true),
     };
     let nest = nest.min(max_nest);
-    let (c, _) = gen_comp(rng, u, nest, budget, deep && nest > 0, &pool);
+    let (c, _) = gen_comp(rng, u, 0, nest, wrap, budget, deep && nest > 0, &pool);
     AccessRule::Protected(c)
 }
 
